@@ -197,5 +197,6 @@ pub fn subs() -> Vec<Box<dyn DynSub>> {
     vec![
         sub(Sub { name: "c09.all_days", source: Source::Enum(inst_enum, |_| true), oracle: inst_oracle, known: no_known, hang_is_violation: false }),
         sub(Sub { name: "c09.generated", source: Source::Gen(inst_strategy, 600_000, 10_000_000), oracle: inst_oracle, known: no_known, hang_is_violation: false }),
+        crate::props::fuzzsub::fc09(),
     ]
 }
